@@ -131,7 +131,8 @@ PROPS = {
                  'sd in both filters)', 'position / NED-velocity models return 2 rows'],
         undecided=['nothing further: the statement is structural']),
     'C07': dict(
-        rules=[kal.kal_rules, kal.use_after_overwrite, lambda c: purity.pur_arg(c, ('kalman',))],
+        rules=[kal.kal_rules, kal.use_after_overwrite, lambda c: purity.pur_arg(c, ('kalman',)),
+               kal.div_zero],
         decided=['no public function of kalman writes into an argument (effect analysis: direct '
                  'and augmented assignment, views, callees, overwrite flags)',
                  'gain == P H^T S^-1 with S == H P H^T + R and state update == x + K (z - H x) '
@@ -146,7 +147,7 @@ PROPS = {
                    'and "never larger than the prior" as numerical facts (they follow '
                    'algebraically)']),
     'C08': dict(
-        rules=[kal.vl_rules, kal.q_psd, layout.assembly,
+        rules=[kal.vl_rules, kal.q_psd, kal.div_zero, layout.assembly,
                lambda c: dtype.dtype_inherit(c, ('kalman', 'filters')),
                lambda c: sched.sched_handover(c, (sched.FB, sched.FF)),
                lambda c: sched.sched_progress(c, (sched.FB, sched.FF))],
@@ -171,7 +172,8 @@ PROPS = {
         assumptions=['pandas >= 3 copy-on-write semantics (measured in this sandbox); calls '
                      'listed under assumed_read_only_calls do not write their arguments']),
     'C18': dict(
-        rules=[diff.diff_orient, diff.diff_sym, diff.wrap_rules, diff.res_rules, geo.unit_const,
+        rules=[diff.diff_orient, diff.diff_sym, diff.diff_wrap_cols, diff.wrap_rules, diff.res_rules,
+               geo.unit_const,
                errmodel.es_perturb, geo.geo_perturb],
         decided=['difference is +first -second on every path, whichever input is denser',
                  'angle reduction maps every real angle into (-180, 180] congruent mod 360 '
@@ -286,7 +288,7 @@ PROPS = {
         rules=[rot.euler_inv, errmodel.es_inv, errmodel.es_first, errmodel.es_perturb,
                integrator.es_copy, integrator.es_2drows, geo.geo_perturb, geo.role_radii,
                geo.unit_const, lambda c: forms.form_agree(c, ('error_model',), 1),
-               forms.form_agree_tables],
+               forms.form_agree_tables, diff.diff_wrap_cols],
         decided=['output->internal is a left inverse of internal->output by construction (same '
                  'builder, inv, S E = I_7)',
                  'a correction changes the state, to first order, by exactly -T_out x in output '
@@ -361,6 +363,12 @@ def run(ctx):
     anchored = tuple(sorted({os.path.basename(x)[:-3] for x in _anchor_files(ctx.prop)}))
     rules = list(spec['rules']) + [lambda c: names.name_bound(c, anchored),
                                    lambda c: names.arg_order(c, anchored)]
+    # shared mutable state in the anchored modules makes every for-all-inputs claim depend on the
+    # calls made before (two seeds - C06 round 2, C05 round 5 - hid a work buffer in a class
+    # constant): PUR-GLOBAL on the anchored modules, unless the property runs it already
+    if ctx.prop not in ('C19',):
+        rules.append(lambda c: None if any(r_['rule'] == 'PUR-GLOBAL' for r_ in c.rules_run)
+                     else purity.pur_global(c, anchored, 1))
     for r in rules:
         try:
             r(ctx)
@@ -376,6 +384,10 @@ def run(ctx):
             if deferred is None:
                 deferred = AnalysisError('%s: %s' % (type(e).__name__, e))
             ctx.info('ANALYSIS', 'rule failed on this code: %s: %s' % (type(e).__name__, e))
+            import sys as _sys
+            import traceback as _tb
+            print('RULE-ERROR %s: %s' % (type(e).__name__, e), file=_sys.stderr)
+            _tb.print_exc(file=_sys.stderr)
     from . import expr as _expr
     if 'pyins.util.to_180_range' in _expr.SUMMARY_USED and not any(r['rule'] == 'WRAP-RANGE' for r in ctx.rules_run):
         # a symbolic rule used util.to_180_range through its summary (congruent modulo 360,
